@@ -299,6 +299,10 @@ def run(ctx):
     for sc, o in zip(scs, ctx.driver(lines)):
         sc.compare(ctx, o, "history-loop")
 
+    # whole fixed-step runs with states against the Lean whole-run model DV.Run (own random stream: the scenarios above keep theirs)
+    import random as _random, runsim
+    runsim.whole_run_block(ctx, _random.Random(ctx.seed * 7919 + 13), 3 if ctx.quick() else 24, kinds=['split-on-grid', 'split-off-grid', 'reset', 'continue-beyond'])
+
 
 def replay(rep):
     return False
